@@ -107,7 +107,7 @@ type Iface struct {
 
 type Tuple []Val
 
-// Big models math/big.Int as a 128-bit two's complement bit-vector.
+// Big models math/big.Int as a bigW-bit two's complement bit-vector.
 type Big struct {
 	T string   // SMT term (when V == nil)
 	V *big.Int // concrete value
@@ -117,9 +117,9 @@ func (b Big) Term() string {
 	if b.V != nil {
 		v := new(big.Int).Set(b.V)
 		if v.Sign() < 0 {
-			v.Add(v, new(big.Int).Lsh(big.NewInt(1), 128))
+			v.Add(v, new(big.Int).Lsh(big.NewInt(1), bigW))
 		}
-		return "(_ bv" + v.String() + " 128)"
+		return fmt.Sprintf("(_ bv%s %d)", v.String(), bigW)
 	}
 	return b.T
 }
@@ -296,7 +296,8 @@ func isNamed(t types.Type, pkg, name string) bool {
 
 func isBigInt(t types.Type) bool { return isNamed(t, "math/big", "Int") }
 
-const bigZero = "(_ bv0 128)"
+const bigW = 256 // width of the bit-vector standing for a math/big.Int (exact for values of up to 31 bytes)
+const bigZero = "(_ bv0 256)"
 const arrSort = "(Array (_ BitVec 64) (_ BitVec 8))"
 const zeroArr = "((as const " + arrSort + ") #x00)"
 
